@@ -1,4 +1,4 @@
 From Coq Require Import Extraction ExtrOcamlBasic NArith.
 From DV Require Import Base.Outcome Base.PName C01.Gen C01.Model C01.Model2 C01.Model3 C01.Model4.
 Extraction Language OCaml.
-Extraction "../build/ml/C01/model.ml" c01_pname c01_skip c01_islice read_all c01_pops read_ops4 c01_xfr c01_isans.
+Extraction "../build/ml/C01/model.ml" c01_pname c01_skip c01_islice read_all c01_pops read_ops4 c01_xfr c01_isans c01_ctor.
